@@ -361,6 +361,56 @@ theorem key_after_call_counterexample :
   refine ⟨by decide +kernel, by decide +kernel, by decide +kernel, ?_⟩
   simp [envMut]
 
+/-! ### Partially ordered dict keys / set elements (seeded change seed5-C06-m1)
+
+`<` on frozensets is set inclusion — a PARTIAL order: `sorted()` of frozensets, or of tuples holding them,
+does not raise and does not order them either; its result follows the order of its input, so a digest
+computed from it would follow the INSERTION ORDER of the dict / set.  The code keeps such keys away from
+`sorted()` (`hashing._holds_frozenset`, through tuples at any depth) and sorts their digests instead. -/
+
+/-- **`sorted()` is applied to totally ordered key lists only.**  When the encoder sorts the keys of a
+dict / the elements of a set themselves (`orderable .fixed keys`), no key is a frozenset or a tuple
+holding one at any depth, and EVERY pair of keys is decided by Python's `<` / `==` (`pyCmp` answers;
+NaN, which compares False both ways, is not).  Every other key list goes through the digests of its keys:
+`keysOf` / `itemsOf` hand `sorted()` the `str` digests (`topOf`), which are totally ordered.
+FULL: every key list. -/
+theorem sorted_only_on_totally_ordered_keys (H : Bs → Bs) (e : PyVal → Memo → Bs × Memo) (keys : List PyVal) :
+    (orderable .fixed keys = true →
+      (∀ k ∈ keys, holdsFrozenset k = false) ∧ keys.Pairwise (fun a b => (pyCmp a b).isSome = true)) ∧
+    ((∃ k ∈ keys, holdsFrozenset k = true) →
+      keysOf H .fixed e keys = keys.map (topOf H e) ∧
+        ∀ items : List (PyVal × PyVal), items.map Prod.fst = keys →
+          itemsOf H .fixed e items = items.map fun kv => (topOf H e kv.1, kv.2)) := by
+  constructor
+  · intro h
+    simp only [orderable, Bool.and_eq_true, Bool.or_eq_true, decide_eq_true_eq, Bool.not_eq_true',
+      List.any_eq_false, reduceCtorEq, false_or] at h
+    exact ⟨fun k hk => by simpa using h.1 k hk, allPairs_pairwise _ keys h.2⟩
+  · rintro ⟨k, hk, hz⟩
+    have hno : orderable .fixed keys = false := by
+      simp only [orderable, Bool.and_eq_false_iff, Bool.or_eq_false_iff, decide_eq_false_iff_not,
+        Bool.not_eq_false', List.any_eq_true]
+      exact .inl ⟨by decide, k, hk, hz⟩
+    refine ⟨by simp [keysOf, hno], fun items hi => ?_⟩
+    simp [itemsOf, hi, hno]
+
+/-- **An equal dict with partially ordered keys, built in another insertion order, is served.**  `envPO`:
+value 0 = `{(1, frozenset({1,2})): 'a', (1, frozenset({2,3})): 'b', (1, frozenset({3})): 'c'}`, value 1 = the
+same dict built in the reverse order, value 2 = another dict (two values swapped); injective digest.
+`cf(d0)`; `check_call_in_cache(d1)` is True; `cf(d1)` and `cf(a=d1)` are served; `cf(d2)` executes.  And the
+keys of these dicts are NOT handed to `sorted()` (`orderable` is false of them). -/
+theorem reordered_partially_ordered_keys_witness :
+    run .fixed hId envPO St.empty
+        [.call fnOne ⟨[0], []⟩ true, .check fnOne ⟨[1], []⟩ true, .call fnOne ⟨[1], []⟩ true,
+          .call fnOne ⟨[], [(0, 1)]⟩ true, .call fnOne ⟨[2], []⟩ true] =
+      [.value [(0, .one 0)] true, .flag true, .value [(0, .one 0)] false, .value [(0, .one 0)] false,
+        .value [(0, .one 2)] true] ∧
+    envPO.val 0 ≠ envPO.val 1 ∧
+    orderable .fixed [.tuple [.int 1, .frozenset [.int 1, .int 2]], .tuple [.int 1, .frozenset [.int 2, .int 3]],
+      .tuple [.int 1, .frozenset [.int 3]]] = false := by
+  refine ⟨by decide +kernel, ?_, by decide +kernel⟩
+  simp [envPO]
+
 /-! ## Non-vacuity
 
 `envEx`, `fnEx` (`def f(a, b=5, *args, **kw)`, `ignore=['b']`): `f(7)` and `f(8, 2)` — value 8 is the
